@@ -3,8 +3,22 @@
 # check of its property and records whether it alarmed; always restores the tree afterwards.
 # Not part of MANIFEST.json: it modifies /repo's working tree while it runs.
 #   ./selftest.sh [id ...]        (default: all)
+#   SHADOW=1 ./selftest.sh [id ...]  works on copies instead (a scratch worktree of /repo's HEAD and a
+#   copy of /verif under /var/tmp/shadow), so that it can run while other checks use /repo; the
+#   copies are kept between calls (their build output is reused) until `SHADOW=clean ./selftest.sh`.
 cd /verif
-if [ -n "$(git -C /repo status --porcelain)" ]; then echo "/repo working tree is not clean"; exit 2; fi
+REPO=/repo; V=/verif
+if [ "$SHADOW" = clean ]; then git -C /repo worktree remove --force /var/tmp/shadow/repo 2>/dev/null; rm -rf /var/tmp/shadow; git -C /repo worktree prune; exit 0; fi
+if [ -n "$SHADOW" ]; then
+  SH=/var/tmp/shadow; mkdir -p $SH
+  [ -d $SH/repo ] || git -C /repo worktree add --detach $SH/repo HEAD >/dev/null 2>&1
+  git -C $SH/repo checkout -q --detach $(git -C /repo rev-parse HEAD) && git -C $SH/repo checkout -- . && git -C $SH/repo clean -fdq packages
+  rsync -a --delete --exclude target --exclude .build --exclude replay --exclude .git --exclude seeded/RESULTS.md /verif/ $SH/verif/
+  sed -i "s#/repo/packages#$SH/repo/packages#" $SH/verif/harness/Cargo.toml
+  export BEFF_REPO=$SH/repo BVH_BUILD=$SH/verif/.build BVH_BEFFC=$SH/verif/harness/target/release/beffc
+  REPO=$SH/repo; V=$SH/verif
+fi
+if [ -n "$(git -C $REPO status --porcelain)" ]; then echo "$REPO working tree is not clean"; exit 2; fi
 ids=("$@"); if [ ${#ids[@]} -eq 0 ]; then ids=($(ls seeded | grep -v '\.md$')); fi
 out=seeded/RESULTS.md
 echo "| seeded | patch | check exit | new signatures (first 3) |" > $out.tmp
@@ -13,11 +27,11 @@ rc=0
 for id in "${ids[@]}"; do
   prop=${id%%-*}
   patch=seeded/$id/patch.adapted.diff; [ -f $patch ] || patch=seeded/$id/patch.diff
-  if ! git -C /repo apply --check /verif/$patch 2>/dev/null; then echo "| $id | $(basename $patch) | does not apply | |" >> $out.tmp; rc=1; continue; fi
-  git -C /repo apply /verif/$patch
+  if ! git -C $REPO apply --check /verif/$patch 2>/dev/null; then echo "| $id | $(basename $patch) | does not apply | |" >> $out.tmp; rc=1; continue; fi
+  git -C $REPO apply /verif/$patch
   log=$(mktemp /var/tmp/selftest.XXXXXX)
-  ./check $prop --tier quick --seed ${VERIF_SEED:-1} > $log 2>&1; ex=$?
-  git -C /repo checkout -- . ; git -C /repo clean -fdq packages 2>/dev/null
+  (cd $V && ./check $prop --tier quick --seed ${VERIF_SEED:-1}) > $log 2>&1; ex=$?
+  git -C $REPO checkout -- . ; git -C $REPO clean -fdq packages 2>/dev/null
   sigs=$(grep -v "^KNOWN" $log | grep "signature:" | head -3 | sed 's/.*signature: //' | cut -c1-110 | tr '\n' ';' | sed 's/|/\\|/g')
   echo "| $id | $(basename $patch) | $ex | $sigs |" >> $out.tmp
   [ $ex -eq 1 ] || rc=1
@@ -43,5 +57,5 @@ os.remove(tmp)
 PY
 cat $out
 # leave the harness built from the restored tree
-(cd harness && cargo build --release --offline --quiet 2>/dev/null)
+[ -n "$SHADOW" ] || (cd harness && cargo build --release --offline --quiet 2>/dev/null)
 exit $rc
